@@ -327,3 +327,13 @@ def c35(ctx):
                 "refine and simplify; TLC validates that the result has the value of the input at every assignment of "
                 "the environment set attached to the assumption set (all of whose assignments satisfy it)")
     simple(ctx, "MC_C35", "Trace_Val", floor=0.3)
+
+
+@plan("C34")
+def c34(ctx):
+    ctx.rule = ("TLC enumerates 34 number expressions and ~190 symbolic expressions (arithmetic, powers, 17 functions, "
+                "max/min) under 12 assumption sets; the 17 tribool queries and is_polynomial are recorded and TLC "
+                "validates every definite answer against the three-valued truth of the property on the value of the "
+                "expression at every assignment of the environment set attached to the assumption set (all of whose "
+                "assignments satisfy it); is_polynomial is validated against the structural definition on the dump")
+    simple(ctx, "MC_C34", "Trace_C34", floor=0.5)
